@@ -1,4 +1,6 @@
 #!/bin/sh
 # TLC with a thread stack large enough for the recursive operators of the specification on long inputs
 # (the plain `tlc` wrapper on PATH uses the JVM default of 1 MB; JAVA_TOOL_OPTIONS does not reach the main thread).
-exec java -Xss${VERIF_XSS:-512m} -XX:+UseParallelGC -cp /opt/veriftools/tla/tla2tools.jar:/opt/veriftools/tla/CommunityModules-deps.jar tlc2.TLC "$@"
+# The heap is capped (VERIF_XMX, default 4g): the largest instance keeps a few million fingerprints; without a cap every JVM sizes its
+# fingerprint set from a quarter of the machine's memory (measured: ~6 GB resident each, three of them side by side per check).
+exec java -Xss${VERIF_XSS:-512m} -Xmx${VERIF_XMX:-4g} -XX:+UseParallelGC -cp /opt/veriftools/tla/tla2tools.jar:/opt/veriftools/tla/CommunityModules-deps.jar tlc2.TLC "$@"
